@@ -130,4 +130,24 @@ PROPS = {
             "console bytes are captured by redirecting the worker's stdout to a file it owns",
         ],
     },
+    "C15": {
+        "death_is_violation": True,
+        "parts": [
+            {"id": "C15", "profile": "release", "runs": {"quick": 600_000, "thorough": 12_000_000},
+             "probes": ["fault.control_lines", "fault.irq", "fault.poke_bus_controller", "fault.poke_io_register", "fault.poke_memory", "fault.poke_vector",
+                        "fault.set_pc", "fault.set_sp", "fault.set_reg", "fault.set_ccr", "fault.landed_inside_handler", "outcome.err", "outcome.ok", "runs_storm", "runs_structured"]},
+            {"id": "C15", "profile": "checked", "runs": {"quick": 600_000, "thorough": 12_000_000},
+             "probes": ["fault.control_lines", "fault.irq", "fault.poke_bus_controller", "fault.poke_io_register", "fault.poke_memory", "fault.poke_vector",
+                        "fault.set_pc", "fault.set_sp", "fault.set_reg", "fault.set_ccr", "fault.landed_inside_handler", "outcome.err", "outcome.ok", "runs_storm", "runs_structured"]},
+        ],
+        "rule": SIG_RULE + "C15 runs, in two build profiles (release; checked = release + overflow-checks): 60% storms (1-64 random instruction words biased to implemented encodings and prefixes, placed at the first/last bytes of every mapped region incl. vector area, "
+                "below the load base and both I/O register blocks, adversarial ER0-ER7/CCR, hostile ABWCR/ASTCR/WCRH/WCRL/DRCRA) and 40% structured runs (healthy generated guest with handlers, system calls, timer and port traffic, corrupted while running: "
+                "code bytes flipped directly or through u8 lines, wild SP/PC/ERn, bus-controller and I/O register pokes, vector-table and data-area corruption, requests for arbitrary vector numbers 0-255, control-line fuzz); "
+                "distinct signatures are counted per build profile and added; signature = sequence of (fault kind, masked?, in handler?) + outcome class + error-message class + instructions executed (capped); non-trivial = a fault fired and more than one iteration ran.",
+        "assumptions": [
+            "a panic is identified by (file, enclosing fn, normalised source line, message class); a dying worker process (abort, stack overflow, OOM under the address-space limit) is a violation attributed to the run index it had logged",
+            "panics inside harness code are harness errors (exit 2), never violations",
+            "invalid UTF-8 on the control channel is outside 'control-channel line' (lines are Rust Strings in E1)",
+        ],
+    },
 }
